@@ -345,10 +345,21 @@ def run(ctx):
                        "all single bytes for text/binary, every finite float exponent x boundary mantissas, all list trees up to "
                        "depth/branching bound); non-trivial = payload length on a length-byte boundary, <=3 elements at a value boundary, "
                        "out-of-range probe, or nesting depth >= 1")
+    # thread-pair independence first (LINE events are switched off again before the enumeration)
+    from checks import pair_ops  # noqa: PLC0415
+    from mc import pairs  # noqa: PLC0415
+
+    ops = [["enc", d] for d in pair_ops.LEAVES + pair_ops.TREES[:1]]
+    pair_execs = pairs.run_part(ctx, ops, "C01", 2 if ctx.thorough else 1)
     ctx.run_cases(check_case, cases(ctx), "c01", chunk=32)
 
 
 def replay(ctx, detail):
+    if isinstance(detail.get("case"), dict) and detail["case"].get("part") == "pair":
+        from mc import pairs  # noqa: PLC0415
+
+        pairs.replay_pair(ctx, detail["case"], "C01")
+        return
     res = check_case(detail["case"])
     ctx.evaluations += 1
     for sig, d in res.get("v", ()):
